@@ -44,8 +44,8 @@ class Program:
                 if m: self.closures.setdefault(m.group(1), f)
         return fns
 
-    def load_enums(self, src_dirs_or_files):
-        """variant order of every enum defined in the given source files"""
+    def load_enums(self, src_dirs_or_files, features=()):
+        """variant order of every enum defined in the given source files (cfg(feature=..) on variants honoured)"""
         files = []
         for p in src_dirs_or_files:
             if os.path.isdir(p):
@@ -54,9 +54,9 @@ class Program:
             else:
                 files.append(p)
         for fp in files:
-            self.load_enums_text(open(fp, errors="replace").read())
+            self.load_enums_text(open(fp, errors="replace").read(), features)
 
-    def load_enums_text(self, src):
+    def load_enums_text(self, src, features=()):
         src = re.sub(r"//[^\n]*", "", src)
         for m in re.finditer(r"\benum\s+(\w+)\s*(<[^{]*?>)?\s*(where[^{]*)?\{", src):
             name = m.group(1)
@@ -67,7 +67,12 @@ class Program:
             body = src[m.end():e]
             vs = []
             for part in split_top(body):
-                part = re.sub(r"#\s*\[[^\]]*\]", "", part).strip()
+                skip = False
+                for fm in re.finditer(r"#\s*\[\s*cfg\s*\(\s*feature\s*=\s*\"([^\"]+)\"\s*\)\s*\]", part):
+                    if fm.group(1) not in features: skip = True
+                for fm in re.finditer(r"#\s*\[\s*cfg\s*\(\s*not\s*\(\s*feature\s*=\s*\"([^\"]+)\"\s*\)\s*\)\s*\]", part):
+                    if fm.group(1) in features: skip = True
+                if skip: continue
                 part = re.sub(r"#\s*\[.*?\]\s*", "", part, flags=re.S).strip()
                 vm = re.match(r"(\w+)", part)
                 if vm: vs.append(vm.group(1))
@@ -142,6 +147,9 @@ class Program:
             c = self.index.get("::".join(segs[i:]))
             if c: return c[0]
         return None
+
+    def lookup_struct(self, name):
+        return False
 
     def code(self, fn):
         c = self.compiled.get(id(fn))
@@ -586,6 +594,12 @@ class Interp:
         segs = path.split("::")
         if len(segs) >= 2 and segs[-2] in self.P.variants and segs[-1] in self.P.variants[segs[-2]]:
             return Enum(segs[-2], segs[-1], self.P.variants[segs[-2]].index(segs[-1]), vals)
+        if len(segs) == 1:
+            # a variant imported by name (e.g. `BottomToTop`): unique owner enum
+            owners = [en for en, vs in self.P.variants.items() if segs[0] in vs]
+            if len(owners) == 1 and not self.P.lookup_struct(segs[0]):
+                en = owners[0]
+                return Enum(en, segs[0], self.P.variants[en].index(segs[0]), vals)
         return Agg(vals, segs[-1])
 
     def cast(self, v, ty, kind, sty):
